@@ -261,7 +261,35 @@ func isAllocatingFunc(w *World, fi *FuncInfo, named *types.Named) bool {
 		}
 		return !found
 	})
-	return found
+	if found {
+		return true
+	}
+	// x := helper(...) where the private helper holds the literal: the object is still fresh here
+	for _, c := range callsIn(fi.Decl.Body, true) {
+		cal := callee(fi.Pkg.TypesInfo, c)
+		if cal == nil || cal.Exported() || w.Decls[cal] == nil || w.Decls[cal] == fi {
+			continue
+		}
+		if sig, ok := cal.Type().(*types.Signature); ok && sig.Results().Len() >= 1 {
+			if nt := namedOf(sig.Results().At(0).Type()); nt != nil && nt.Obj() == named.Obj() {
+				inner := false
+				ast.Inspect(w.Decls[cal].Decl, func(n ast.Node) bool {
+					if cl, ok := n.(*ast.CompositeLit); ok {
+						if tv, ok := w.Decls[cal].Pkg.TypesInfo.Types[cl]; ok {
+							if nt2 := namedOf(tv.Type); nt2 != nil && nt2.Obj() == named.Obj() {
+								inner = true
+							}
+						}
+					}
+					return !inner
+				})
+				if inner {
+					return true
+				}
+			}
+		}
+	}
+	return false
 }
 
 // checkDiscipline is rule R09.1 / R09.1u; filter restricts it to some structs.
@@ -385,7 +413,7 @@ func checkDiscipline(w *World, r *Report, la *LockAnalysis, filter func(sharedSt
 		case row.kind == "immutable":
 			if !a.IsWrite() {
 				r.OK("R09.1", construct, a.Pos(), false, "read of an immutable field")
-			} else if inCtor && isAllocatingFunc(w, a.Unit.fi, named[ss.name]) {
+			} else if a.Unit != nil && isAllocatingFunc(w, a.Unit.fi, named[ss.name]) {
 				r.OK("R09.1", construct, a.Pos(), true, "written in the function that allocates the %s", ss.name)
 			} else {
 				r.Fail("R09.1", construct, a.Pos(), "field %s.%s is read without synchronisation by concurrent operations, so it must be immutable after construction, but it is written (%s) in %s", ss.name, a.Field.Name(), a.Kind, uname)
@@ -429,7 +457,7 @@ func checkDiscipline(w *World, r *Report, la *LockAnalysis, filter func(sharedSt
 			if a.Kind != "atomic" {
 				allAtomic = false
 			}
-			if a.IsWrite() && !(a.Unit != nil && ctor[ss.name][a.Unit.fi] && isAllocatingFunc(w, a.Unit.fi, named[ss.name])) {
+			if a.IsWrite() && !(a.Unit != nil && isAllocatingFunc(w, a.Unit.fi, named[ss.name])) {
 				writesOnlyCtor = false
 			}
 			if a.Node != nil && !isFreshAccess(a) {
